@@ -315,7 +315,7 @@ def run_config(ctx, config, counts):
 
 def run(ctx):
     counts = {"byval": set(), "ref": 0}
-    for config in ("f64-all", "dec-all"):
+    for config in ("f64-all", "dec-all") + (("f64-nostd", "dec-nostd") if ctx.tier == "thorough" else ()):
         run_config(ctx, config, counts)
     cat = lambda c: len([x for x in counts["byval"] if x[0] == c and (x[1].startswith("quantities::") or x[3].startswith("quantities::"))])
     ctx.floor("f64-all catalogue by-value derived operators", cat("f64-all"), 34)
